@@ -283,7 +283,7 @@ def gen_op(d: D, prof: dict, name: str, depth: int = 0) -> dict:
         bad = []
         if d.p(0.6):
             bad.append("func")
-            op["func_kind"] = d.i(0, 4)
+            op["func_kind"] = d.i(0, 8)
         if d.p(0.5) or not bad:
             bad.append("nc")
             op["nc_val"] = d.i(0, 3)
